@@ -127,3 +127,19 @@ func VerifC19PacketID(b []byte) uint8 {
 
 // VerifC19SvShutdown is the packet id of the shutdown notification.
 const VerifC19SvShutdown = SvShutdown
+
+// Work returns a copy of the work-hours rule the Session has in force (nil: none).
+func (v *VerifC19Session) Work() *cfg.WorkHours {
+	if v.s.work == nil {
+		return nil
+	}
+	w := *v.s.work
+	return &w
+}
+
+// SetWork calls the real (*Session).SetWorkHours (the local setter; on a client Session it installs
+// the rule directly and reports ErrNoTask, an invalid rule is rejected with the Verify error).
+func (v *VerifC19Session) SetWork(w *cfg.WorkHours) error {
+	_, err := v.s.SetWorkHours(w)
+	return err
+}
